@@ -229,6 +229,9 @@ def tasks(tier, seed):
     light = ["drop", "answer", "exception", "send_error", "peer_closes"]
     ts += H.make_tasks(PROP, cfgs[:2] + cfgs[2:3], light, [["silent", "answer", "silent"]] if tier == "quick" else
                        [["silent", "answer", "silent"], ["silent", "silent", "answer", "silent", "silent"]])
+    # Modbus/TCP with the process-global transaction counter just below its wrap (a history of > 65535 transmissions)
+    ts += H.make_tasks(PROP, [{"transport": "tcp", "keep_alive": True, "T": 2, "retries": 1, "tx_start": 0xFFFD}],
+                       ["drop", "answer", "exception"], [["silent", "answer", "silent"]])
     ts.append({"name": "counter", "fn": "counter"})
     ident = [("discover", "ET", (5, 15)), ("discover", "ET", (31, 47)), ("discover", "DT", (31, 47)), ("discover", "ES", (0, 5)),
              ("connect", "ET", (6, 22)), ("connect", "ET", (22, 32)), ("connect", "ET", (42, 66)), ("connect", "DT", (6, 32)),
